@@ -47,7 +47,7 @@ theorem C13_callback_counts_flat (c : Case) (cls : Nat) (h : Option Nat) (fs : L
     simp [Case.opts]
 
 /-- **C13_model_meets_spec**: on every case (no well-formedness, no known-deviation hypothesis). -/
-theorem C13_model_meets_spec (c : Case) : spec c (model c) = true := by
+theorem model_meets_specMain (c : Case) : specMain c (model c) = true := by
   have hval : ∀ v, demanded c = .value v → runPlain c = .ok v := by
     intro v hv
     unfold demanded at hv
@@ -68,7 +68,7 @@ theorem C13_model_meets_spec (c : Case) : spec c (model c) = true := by
       cases hr : realise s with
       | error e => exact ⟨e, by rw [hrun, hr]⟩
       | ok w => simp [hs, hr] at hv
-  unfold spec
+  unfold specMain
   cases hf : fires c with
   | true =>
     cases hrt : roundtripApplies c <;> simp [model, run, hf, hrt, Res.ofExcept, Res.eqv]
@@ -81,6 +81,17 @@ theorem C13_model_meets_spec (c : Case) : spec c (model c) = true := by
     | raises =>
       obtain ⟨e, he⟩ := hexc hdm
       cases hrt : roundtripApplies c <;> simp [model, run, hf, hrt, he, Res.ofExcept, Res.isExc]
+
+/-- **C13_callbacks_once_per_occurrence**: a call that returns has consulted the filter once per field occurrence
+    and the serializer once per passing field and per leaf below field level — whatever the values are (equal
+    values of different exact type or identity, 1 / True / 1.0, get their own verdicts: there is no memo). -/
+theorem C13_callbacks_once_per_occurrence (c : Case) : specCalls c (model c) = true := by
+  unfold specCalls
+  cases hr : run c <;> simp [model, hr, Res.ofExcept, isOkE]
+
+/-- **C13_model_meets_spec**: on every case (no well-formedness, no known-deviation hypothesis). -/
+theorem C13_model_meets_spec (c : Case) : spec c (model c) = true := by
+  simp [spec, model_meets_specMain c, C13_callbacks_once_per_occurrence c]
 
 theorem C13_known_empty (c : Case) : known c = [] := rfl
 
